@@ -595,17 +595,19 @@ func (s *hSUT) settle(due bool) {
 }
 
 func (s *hSUT) report(status string) string {
+	// packets first, then the log: the log line of a tick precedes its packets, so every packet reported here has
+	// its tick reported here or earlier
+	s.client.mu.Lock()
+	em := append([]emission{}, s.client.emits[s.seenEmit:]...)
+	sy := append([]uint64{}, s.client.syncFrom[s.seenSync:]...)
+	s.seenEmit, s.seenSync = len(s.client.emits), len(s.client.syncFrom)
+	s.client.mu.Unlock()
 	s.logs.mu.Lock()
 	ticks := append([]string{}, s.logs.ticks[s.seenTick:]...)
 	apps := append([]string{}, s.logs.appended[s.seenApp:]...)
 	s.seenTick, s.seenApp = len(s.logs.ticks), len(s.logs.appended)
 	past, fut := s.logs.c["past"], s.logs.c["future"]
 	s.logs.mu.Unlock()
-	s.client.mu.Lock()
-	em := append([]emission{}, s.client.emits[s.seenEmit:]...)
-	sy := append([]uint64{}, s.client.syncFrom[s.seenSync:]...)
-	s.seenEmit, s.seenSync = len(s.client.emits), len(s.client.syncFrom)
-	s.client.mu.Unlock()
 	// emissions: group by (round, stamp); k = packets / (n-1)
 	type ek struct {
 		r  uint64
